@@ -310,6 +310,7 @@ PROPS["C09"]["assumptions"] = PROPS["C09"]["assumptions"] + ["go/extract/transla
     "operations; a source outside that fragment yields no definitions and Props/C09Flags stops checking (C09 only)"]
 PROPS["C11"]["props"].append("MassVerif.Props.C11Scan")
 PROPS["C11"]["props"].append("MassVerif.Props.C07File")      # the header block: what is written is what is checked
+PROPS["C11"]["props"].append("MassVerif.Props.C11Header")    # the scan model's header description is a function of the block's bytes
 PROPS["C11"]["drivers_mod"].append("MassVerif.Driver.Scan")
 PROPS["C11"]["harnesses"].append({"name": "scan", "pkg": "harness/scan", "driver": "MassVerif/Driver/Scan.lean",
                                   "quick": {"n": 150}, "thorough": {"n": 3000}, "search": {"n": 1500}, "replayable": False})
